@@ -111,22 +111,24 @@ def check_array_safe(ctx: Ctx, rule: str, printer: str = "numpy", jax: bool = Fa
 
 def check_not_normalised(ctx: Ctx, rule: str):
     """A surviving Not(And/Or) inside a Piecewise condition is pushed down by simplify before the python / writer printers see it."""
+    from sa import av as _av
+
+    from . import util
+
     f = ctx.sm.func("codegen/base.py", "_print_Piecewise")
-    body = f.node.body
-    simp_line = None
-    first_print = None
-    for n in ast.walk(f.node):
-        if isinstance(n, ast.Assign) and isinstance(n.value, ast.Call) and (dotted(n.value.func) or "").endswith("simplify") and len(n.value.args) == 1 and norm(n.targets[0]) == norm(n.value.args[0]):
-            simp_line = n.lineno if simp_line is None else min(simp_line, n.lineno)
-    # printer._print calls at function level (not inside the nested helper definition)
-    for st in body:
-        if isinstance(st, (ast.FunctionDef,)):
-            continue
-        for n in ast.walk(st):
-            if isinstance(n, ast.Call) and (dotted(n.func) or "").endswith("printer._print"):
-                first_print = n.lineno if first_print is None else min(first_print, n.lineno)
-    ok = simp_line is not None and first_print is not None and simp_line < first_print
-    ctx.check(ok, rule, f.key("simplify-before-print"), "the Piecewise is normalised by sympy.simplify before any branch or condition is printed", "base._print_Piecewise no longer passes the Piecewise through sympy.simplify before printing: a condition Not(And(..)) would reach the python printer's scalar-only `not (...)` (and the .ode writer's `~(...)`)", f.where())
+    v = util.value_of(ctx, f)
+    key = f.key("simplify-before-print")
+    ep = f.params[1] if len(f.params) > 1 else "expr"
+    comps = [c for c in _av.find_all(v, "comp")]
+    prints = [m for m in _av.find_all(v, "mcall") if m[2] == "_print"]
+    if _av.has_unk(v) or not comps or not prints:
+        ctx.undecided(rule, key, "what base._print_Piecewise prints is not understood", f.where())
+        return
+    simp = [c for c in _av.find_all(v, "call") if c[1].split(".")[-1] == "simplify" and c[2] == (("sym", ep),)]
+    raw = [c for c in comps if _av.show(_av._unwrap_seq(c[2])) == f"{ep}.args"]
+    over_simplified = [c for c in comps if simp and _av._unwrap_seq(c[2]) == ("attr", simp[0], "args")]
+    ok = bool(simp) and not raw and len(over_simplified) == len([c for c in comps if c[2][0] != "comp"])
+    ctx.check(ok, rule, key, "the Piecewise is normalised by sympy.simplify before any branch or condition is printed", "base._print_Piecewise no longer passes the Piecewise through sympy.simplify before printing: a condition Not(And(..)) would reach the python printer's scalar-only `not (...)` (and the .ode writer's `~(...)`)", f.where())
 
 
 # gotranx print methods that were read when the rules were written.  An override for any *other* producible class has
